@@ -1,0 +1,156 @@
+//go:build verif
+
+package synchronization
+
+// Contracts for property C29 (session lifecycle commands take effect exactly
+// as documented): halt (pause / shutdown / terminate), flush, reset, session
+// loading, and the flush acknowledgment of the synchronization loop.
+// Comment-only file: compiled only under the "verif" build tag, contains no
+// code. The "//@" lines are read by govc.
+
+// The lifecycle fields of a controller (disabled, cancel, flushRequests, done,
+// paths, session pointer) are written only by this package; code reached
+// through function values and interfaces (cancel functions, prompters,
+// endpoints, loggers) does not write them.
+//@ private controller
+
+// Ghost maps maintained by govc at every channel operation the verified
+// function itself executes: number of sends / successful receives per channel,
+// last value sent on / received from it; chrecvsclosed counts the receive
+// operations (select cases, comma-ok receives) that completed because the
+// channel was closed.
+//@ ghost chsends map[int]int
+//@ ghost chrecvs map[int]int
+//@ ghost chrecvsclosed map[int]int
+//@ ghost chcloses map[int]int
+//@ ghost chlast map[int]int
+//@ ghost chlastrecv map[int]int
+
+// A run loop is started only for a session that is not marked paused.
+// (Precondition of the goroutine, an obligation at every go statement that
+// starts it in a verified function.)
+//@ func (*controller).run
+//@   requires[notpaused] c != nil && c.session != nil && !c.session.Paused
+
+// ------------------------------------------------------------------- halt
+//
+//   refuse     a disabled controller reports an error, stops nothing, saves
+//              and removes nothing
+//   stopped    if a run loop existed, halt called the loop's cancel function
+//              and then received from the loop's done channel (exactly once,
+//              on the channel that was c.done on entry) before anything else;
+//              afterwards no loop state is left (cancel, flushRequests, done
+//              are nil)
+//   pause      the session is saved to the session path with Paused set,
+//              after the loop was stopped; nil is returned only if that save
+//              returned nil
+//   terminate  the controller is disabled first, then both the session file
+//              and the archive file are removed; nil is returned only if both
+//              removals returned nil
+//   shutdown   the controller is disabled
+//@ func (*controller).halt
+//@   requires[ctl] c != nil && c.session != nil
+//@   ensures[refuse] old(c.disabled) ==> result != nil && c.cancel == old(c.cancel) && c.done == old(c.done) && c.disabled
+//@   ensures[refuse] old(c.disabled) ==> chrecvs == old(chrecvs)
+//@   at call controller.cancel assert[refuse] !old(c.disabled)
+//@   at call encoding.MarshalAndSaveProtobuf assert[refuse] !old(c.disabled)
+//@   at call os.Remove assert[refuse] !old(c.disabled)
+//@   at call controller.cancel assert[stopped] old(c.cancel) != nil && c.done == old(c.done) && chrecvs[c.done] == old(chrecvs)[c.done]
+//@   at call controller.cancel let cancelCalled = true
+//@   ensures[stopped] !old(c.disabled) && old(c.cancel) != nil ==> cancelCalled
+//@   ensures[stopped] !old(c.disabled) && old(c.cancel) != nil ==> chrecvs[old(c.done)] == old(chrecvs)[old(c.done)] + 1
+//@   ensures[stopped] !old(c.disabled) ==> c.cancel == nil
+//@   ensures[stopped] !old(c.disabled) && old(c.cancel) != nil ==> c.flushRequests == nil && c.done == nil
+//@   ensures[stopped] old(c.cancel) == nil ==> chrecvs == old(chrecvs)
+//@   at call encoding.MarshalAndSaveProtobuf assert[pause] mode == controllerHaltModePause && arg0 == c.sessionPath && arg1 == box(c.session) && c.session.Paused && c.cancel == nil && (old(c.cancel) != nil ==> chrecvs[old(c.done)] == old(chrecvs)[old(c.done)] + 1)
+//@   at call encoding.MarshalAndSaveProtobuf let pauseSaveErr = result
+//@   ensures[pause] !old(c.disabled) && mode == controllerHaltModePause && result == nil ==> pauseSaveErr == nil
+//@   ensures[pause] mode == controllerHaltModePause ==> c.disabled == old(c.disabled)
+//@   at call os.Remove#1 assert[terminate] mode == controllerHaltModeTerminate && arg0 == c.sessionPath && c.disabled && c.cancel == nil && (old(c.cancel) != nil ==> chrecvs[old(c.done)] == old(chrecvs)[old(c.done)] + 1)
+//@   at call os.Remove#2 assert[terminate] mode == controllerHaltModeTerminate && arg0 == c.archivePath && c.disabled && c.cancel == nil
+//@   at call os.Remove#1 let sessionRemoveResult = result
+//@   at call os.Remove#2 let archiveRemoveResult = result
+//@   ensures[terminate] !old(c.disabled) && mode == controllerHaltModeTerminate && result == nil ==> sessionRemoveResult == nil && archiveRemoveResult == nil
+//@   ensures[terminate] !old(c.disabled) && mode == controllerHaltModeTerminate ==> c.disabled
+//@   ensures[shutdown] !old(c.disabled) && mode == controllerHaltModeShutdown ==> c.disabled && result == nil
+//@   at call Endpoint.Shutdown assert[noendpoint] false
+//@   at call connect assert[noendpoint] false
+
+// ------------------------------------------------------------------ flush
+//
+//   refuse     disabled or paused (no run loop): error
+//   waited     in waiting mode nil is returned only after this call has sent
+//              the request channel it created on the controller's
+//              flush-request channel (the one of the running loop) and a
+//              receive on that very request channel has completed; if that
+//              receive delivered a value, the value is nil (the
+//              acknowledgment); without a completed receive on the request
+//              channel an error is returned. (A request channel is never
+//              closed: the loop that receives it has no close statement,
+//              clause noclose of synchronize.)
+//@ func (*controller).flush
+//@   requires[ctl] c != nil && c.session != nil
+//@   ensures[refuse] old(c.disabled) || old(c.cancel) == nil ==> result != nil
+//@   ensures[refuse] old(c.disabled) || old(c.cancel) == nil ==> chsends == old(chsends)
+//@   ensures[waited] !skipWait && result == nil ==> fresh(request) && flushRequests == old(c.flushRequests) && chsends[flushRequests] == old(chsends)[flushRequests] + 1 && chlast[flushRequests] == request
+//@   ensures[waited] !skipWait && result == nil ==> chrecvs[request] + chrecvsclosed[request] == old(chrecvs)[request] + old(chrecvsclosed)[request] + 1
+//@   ensures[waited] !skipWait && result == nil && chrecvs[request] > old(chrecvs)[request] ==> chlastrecv[request] == nil
+//@   ensures[waited] !skipWait && chrecvs[request] + chrecvsclosed[request] == old(chrecvs)[request] + old(chrecvsclosed)[request] ==> result != nil
+
+// ------------------------------------------------------------------ reset
+//
+//   emptied    the archive path is overwritten with an empty archive, while
+//              no run loop exists (a running session was paused first, and
+//              reset goes on only if that succeeded)
+//   resumed    the session is resumed only if it was running before and the
+//              empty archive was saved; nil only if every step succeeded
+//   noendpoint reset and halt themselves call no endpoint method and do not
+//              connect: endpoints are touched only inside resume
+//@ func (*controller).reset
+//@   requires[ctl] c != nil && c.session != nil
+//@   at call (*controller).halt assert[emptied] arg2 == controllerHaltModePause && arg4 && old(c.cancel) != nil
+//@   at call (*controller).halt let haltErr = result
+//@   at call encoding.MarshalAndSaveProtobuf assert[emptied] arg0 == c.archivePath && arg1 == box(archive) && archive != nil && archive.Content == nil && c.cancel == nil && (old(c.cancel) != nil ==> haltErr == nil)
+//@   at call encoding.MarshalAndSaveProtobuf let clearErr = result
+//@   at call (*controller).resume assert[resumed] old(c.cancel) != nil && clearErr == nil && arg3
+//@   at call (*controller).resume let resumeErr = result
+//@   ensures[resumed] result == nil ==> clearErr == nil && (old(c.cancel) != nil ==> haltErr == nil && resumeErr == nil)
+//@   at call Endpoint.Shutdown assert[noendpoint] false
+//@   at call Endpoint.Scan assert[noendpoint] false
+//@   at call Endpoint.Transition assert[noendpoint] false
+//@   at call connect assert[noendpoint] false
+
+// ------------------------------------------------------------ loadSession
+//
+//   notpaused  a run loop is started only if the loaded session is not marked
+//              paused (precondition of run at the go statement)
+//   idle       a controller loaded for a session whose stored Paused flag is set
+//              has no loop state (no cancel function, no channels); loadedPaused
+//              is the flag as loaded and validated, read before any loop could
+//              have been started
+//@ func loadSession
+//@   at call state.NewTrackingLock let loadedPaused = session.Paused
+//@   ensures[idle] result1 == nil ==> result0 != nil && result0.session != nil
+//@   ensures[idle] result1 == nil && loadedPaused ==> result0.cancel == nil && result0.done == nil && result0.flushRequests == nil
+//@   ensures[idle] result1 == nil && !loadedPaused ==> result0.done != nil && result0.flushRequests != nil
+
+// ------------------------------------------------- flush acknowledgment
+//
+// In the synchronization loop a flush request, once received, is remembered
+// until acknowledged; the acknowledgment is the value nil, sent on the
+// request channel that was received from the controller's flush-request
+// channel, at the end of a cycle whose scans were started with the full-scan
+// flag set and whose transitions and archive update reported no error.
+//@ func (*controller).synchronize
+//@   at call send assert[flushack] arg0 == flushRequest && flushRequest != nil && arg1 == nil
+//@   at call send assert[flushack] forceFullScan && αTransitionErr == nil && βTransitionErr == nil
+//@   at call encoding.MarshalAndSaveProtobuf let archiveSaveErr = result
+//@   at call send assert[flushack] len(withBeta) > 0 ==> archiveSaveErr == nil
+//@   at call close assert[noclose] false
+
+// The scan goroutines pass the cycle's full-scan flag (and the cycle's
+// ancestor) to the endpoints.
+//@ func (*controller).synchronize$3
+//@   at call Endpoint.Scan assert[fullscan] arg2 == ancestor && arg3 == forceFullScan
+//@ func (*controller).synchronize$4
+//@   at call Endpoint.Scan assert[fullscan] arg2 == ancestor && arg3 == forceFullScan
